@@ -47,6 +47,15 @@ type Peer struct {
 	segment     func(n int) []int // how to cut a reply of n bytes into writes
 	AllowDupTag bool
 	Seen        []*wire.Msg
+	paused      bool // the peer does not read requests (its receive buffer fills up)
+}
+
+// PauseReads makes the peer stop draining the client's requests (true) or resume (false).
+func (p *Peer) PauseReads(on bool) {
+	p.mu.Lock()
+	p.paused = on
+	p.cond.Broadcast()
+	p.mu.Unlock()
 }
 
 // New creates the pipe and starts reading the client's requests.
@@ -62,6 +71,11 @@ func (p *Peer) reader() {
 	var buf []byte
 	tmp := make([]byte, 1<<20)
 	for {
+		p.mu.Lock()
+		for p.paused {
+			p.cond.Wait()
+		}
+		p.mu.Unlock()
 		n, err := p.Srv.Read(tmp)
 		if n > 0 {
 			buf = append(buf, tmp[:n]...)
